@@ -292,3 +292,30 @@ def m6(ctx):
                           "`%s` can be reached without handler.set_value() having completed: a property that is not supported on the resource (or was "
                           "skipped) is reported as successfully set although nothing was stored" % n.text()[:50]))
     return obs
+
+
+@rule("C15", "M7", floor=8, kind="S",
+      desc="read back as written: the web-layer and store-layer setters hand the value down unchanged (the argument "
+           "of the delegated set_* call is the setter's own parameter)")
+def m7(ctx):
+    from ..dataflow import DefUse
+    obs = []
+    sbc = ctx.P.cls("xandikos.web.StoreBasedCollection")
+    classes = [sbc] + sbc.all_subclasses() + [ctx.P.cls("xandikos.store.git.GitStore")]
+    for ci in classes:
+        for nm, f in ci.methods.items():
+            if not nm.startswith("set_") or len(f.params) != 2:
+                continue
+            cfg = ctx.cfg(f)
+            du = DefUse(cfg)
+            for n in cfg.stmt_nodes():
+                for c in n.calls():
+                    if not (isinstance(c.func, ast.Attribute) and c.func.attr.startswith("set_") and (dotted(c.func.value) or "") in ("self.store", "self.config", "self.store.config")):
+                        continue
+                    if c.func.attr in ("set_type",):
+                        continue
+                    a = c.args[0] if c.args else None
+                    ok = isinstance(a, ast.Name) and a.id == f.params[1] and all(d.kind == "param" for d in du.reaching(n, a.id))
+                    obs.append(ctx.ob(ok, f.qualname, where(f, n), "%s passes its value on unchanged" % nm, "argument is the parameter `%s`" % f.params[1],
+                                      "%s hands `%s` to %s, not the value it was given: what PROPFIND returns afterwards is not what was set" % (f.short, src(a) if a is not None else "?", c.func.attr)))
+    return obs
